@@ -15,6 +15,8 @@ Line protocol of the C04 model driver (one output line per input line):
   lockretry <p> -|=<custom> <timeout_ms> <release_ms> <q>
                             -> <result> <requests sent>   (lock(timeout>0) with a 100 ms period while proxy q calls
                                unlock() after release_ms; release_ms must not be a multiple of 100)
+  mktoken <name> <nonce> <n> -> ctx/token         (the automatic token for counter value n)
+  burnto <ctxidx> <n>       -> ok | bad-op       (shorthand for n - counter consecutive `burn`s; never decreases)
   recreate                  -> ok                (object removed and created again under the same name)
   stopctx <ctxidx>          -> ok                (client context stopped)
   tok <p>                   -> <tok> <nbtok>     (the proxy's two remembered tokens, `-` or ctx/token)
@@ -93,6 +95,18 @@ def stepLine (s : Sys) (line : String) : Sys × String :=
       let r := proxyLockRetry s p c envs
       (r.1, showOut r.2.1 ++ " " ++ toString r.2.2)
     | _, _, _, _, _ => (s, "bad-op")
+  | ["mktoken", name, nonce, n] =>
+    match n.toNat? with
+    | some n => (s, showTok (some (mkToken name (if nonce == "-" then "" else nonce) n)))
+    | none => (s, "bad-op")
+  | ["burnto", c, n] =>
+    -- the counter of context c after (n - counter) further `burn`s (e.g. that many denied lock() calls on another object)
+    match c.toNat?, n.toNat? with
+    | some c, some n =>
+      match s.ctxs[c]? with
+      | some cx => if cx.counter ≤ n then ({ s with ctxs := s.ctxs.set c { cx with counter := n } }, "ok") else (s, "bad-op")
+      | none => (s, "bad-op")
+    | _, _ => (s, "bad-op")
   | ["recreate"] => doOp s .recreate
   | ["stopctx", c] => match c.toNat? with | some c => doOp s (.stopCtx c) | none => (s, "bad-op")
   | ["burn", c] => match c.toNat? with | some c => doOp s (.burn c) | none => (s, "bad-op")
